@@ -233,4 +233,5 @@ func Run(c *hx.Ctx) {
 	for i := 0; i < c.N(3000, 60000); i++ {
 		runTimeout(c, c.Rng)
 	}
+	runPart2(c) // kinds rw, rd, rt (c17b.go)
 }
